@@ -176,6 +176,17 @@ def r2_folding(a, tier):
         rep.add({'keywords_writer': f.qualname, 'source': src, 'on_bound_path_after_active_config': per_parse})
         if per_parse:
             ok_writer = True
+    # the table is folded at CONSTRUCTION (Grammar.__init__ / ParserConfig.__post_init__ replace the keywords by their upper-case
+    # form under the grammar's ignorecase) while the candidate is folded under the ignorecase of THIS parse: the two agree only
+    # if the per-parse writer folds again from a spelling that was kept
+    refolds = any('upper' in norm(n.value) and 'ignorecase' in norm(n.value) for f, n in writers)
+    rep.add({'per_parse_table_is_folded_under_the_per_parse_ignorecase': refolds})
+    if not refolds:
+        w0 = writers[0][0] if writers else bound
+        rep.fail(w0.qualname, 'fold-not-per-parse', 'the keyword table is upper-cased once, when the grammar or the configuration is built '
+                 '(under the ignorecase in force then), and the per-parse table is a copy of that: with @@ignorecase :: True in the '
+                 'grammar and ignorecase=False given to parse(), the table holds IF while the candidate `if` is compared as written, so '
+                 'the keyword is accepted by an @name rule (and `IF`, which is no keyword then, is rejected)', w0.loc)
     if not ok_writer:
         w = writers[0][0] if writers else bound
         rep.fail(w.qualname, 'keywords-not-per-parse',
